@@ -30,6 +30,17 @@ class Dispatcher:
         return None
 
 
+def exact_arm(disp, prog, kind):
+    """The arm written for ``kind`` itself (falls back to the first accepting arm)."""
+    for a in disp.arms:
+        if not a.negated and a.kinds == [kind]:
+            return a
+    for a in disp.arms:
+        if not a.negated and kind in a.kinds:
+            return a
+    return disp.handler(prog, kind)
+
+
 def dispatcher(prog, fi, min_arms=2) -> Dispatcher:
     aliases = prog.func_aliases(fi)
     known = set(prog.classes)
